@@ -24,6 +24,7 @@ def bases():
     b["delegated"] = make_event("B", 1, 1003, [delegation_tag("A", "B", "kind=1")], "delegated")
     b["replaceable"] = make_event("A", 10002, 1004, [["r", "wss://x"]], "")
     b["deletion"] = make_event("A", 5, 1005, [["e", "cd" * 32]], "")
+    b["param_bare_d"] = make_event("A", 30000, 1006, [["t", "x"], ["d"]], "bare d")
     return b
 
 
@@ -148,6 +149,22 @@ def resigned_variants():
     e = copy.deepcopy(b["plain"])
     e["pubkey"] = PK["A"].upper()
     out["resigned_upper_pubkey"] = resign(e, "A")
+    # well-formed id (the hash of the fields as sent) with a signature field that only fails deep inside verification
+    for nm, tags in (("empty_tag", [[]]), ("nonlist_tag", ["x"]), ("bare_delegation", [["delegation"]]), ("delegation_nonstr", [["delegation", 1, 2, 3]]),
+                     ("delegation_5_items", [delegation_tag("A", "B", "kind=1") + ["x"]]), ("string_tags", ["delegation", "de"]), ("dict_tag", [{"t": "x"}])):
+        e = copy.deepcopy(b["plain"])
+        e["tags"] = tags
+        try:
+            good = resign(e, "A")
+        except Exception:
+            continue
+        out["resigned_%s_sig_nonhex" % nm] = dict(good, sig="zz" * 64)
+        out["resigned_%s_sig_other" % nm] = dict(good, sig=b["plain"]["sig"])
+        if nm in ("bare_delegation", "delegation_nonstr", "delegation_5_items", "string_tags", "nonlist_tag", "dict_tag"):
+            out["resigned_%s" % nm] = good
+    e = copy.deepcopy(b["plain"])
+    e["content"] = "other"
+    out["resigned_sig_nonhex_lower"] = dict(resign(e, "A"), sig="gh" * 64)
     return out
 
 
@@ -194,6 +211,8 @@ def cases(tier):
                 for lo in range(0, len(muts), BLOCK):
                     out.append((backend, path, bn, lo, lo + BLOCK, tier))
             out.append((backend, path, "__resigned__", 0, 0, tier))
+        for bn in bnames:
+            out.append((backend, "ws", "__primed__" + bn, 0, 0, tier))
     return out
 
 
@@ -201,8 +220,24 @@ def describe(case):
     return {"backend": case[0], "path": case[1], "base": case[2], "lo": case[3], "hi": case[4], "tier": case[5]}
 
 
-def check_one(sess, backend, path, name, ev, viol, cid):
+_PRIMER = []
+
+
+def primer():
+    if not _PRIMER:
+        _PRIMER.append(make_event("C", 1, 990, [], "a genuine event accepted just before on the same connection"))
+    return _PRIMER[0]
+
+
+def check_one(sess, backend, path, name, ev, viol, cid, primed=False):
     sess.reset()
+    if primed:
+        # the previous EVENT on the same connection was genuine and acknowledged true
+        r = sess.submit(primer())
+        if not (r["ok"] and r["ok"][0][2] is True):
+            from ..env import HarnessError
+
+            raise HarnessError("C03: the primer event was not accepted: %r" % (r["ok"],))
     ok, _ = R.authentic(ev)
     if path == "ws":
         try:
@@ -257,6 +292,24 @@ def run_case(case):
             a = check_one(sess, backend, path, name, ev, viol, cid)
             n += 1
             accepted += bool(a)
+    elif bn.startswith("__primed__"):
+        # every single mutation and every re-signed variant again, this time right after a genuine event was acknowledged on the
+        # same connection (state left over from the previous message must not leak into the answer)
+        bname = bn[len("__primed__"):]
+        todo = []
+        for m in mutation_ids(tier):
+            if len(m) <= 1:
+                ev = apply_ops(B()[bname], m)
+                if ev is not None:
+                    todo.append(("%s|primed|mut=%s" % (bname, "+".join(m) or "none"), ev))
+        if bname == "plain":
+            todo += [("primed|" + k, v) for k, v in resigned_variants().items()]
+        for name, ev in todo:
+            a = check_one(sess, backend, path, name, ev, viol, cid, primed=True)
+            if a is None:
+                continue
+            n += 1
+            accepted += bool(a)
     else:
         base = B()[bn]
         for m in mutation_ids(tier)[lo:hi]:
@@ -276,12 +329,13 @@ def run_case(case):
 
 def coverage(tier, agg):
     return {
-        "rule": "6 valid base events (plain, tagged, unicode content, NIP-26 delegated, replaceable, deletion) x [identity + %d single mutation "
-                "operators + %s pairs of operators on distinct fields] + 8 re-signed structurally wrong variants (forged/transplanted/"
-                "wrong-condition/truncated delegation, string kind, wrong signer, upper-case pubkey), x {websocket EVENT, direct add_event} x "
-                "{sql, kv}; oracle: OK=true only for authentic submissions, every pushed event and every stored record is authentic under an "
+        "rule": "7 valid base events (plain, tagged, unicode content, NIP-26 delegated, replaceable, deletion, parameterized replaceable with a bare d tag) x [identity + %d single mutation "
+                "operators + %s pairs of operators on distinct fields] + %d re-signed structurally wrong variants (forged/transplanted/"
+                "wrong-condition/truncated/bare/non-string delegation, string kind, wrong signer, upper-case pubkey, malformed tags with a "
+                "consistent id and a signature that fails only inside verification), x {websocket EVENT, direct add_event} x {sql, kv}; all single "
+                "mutations and re-signed variants once more right after a genuine event was acknowledged on the same connection; oracle: OK=true only for authentic submissions, every pushed event and every stored record is authentic under an "
                 "independent strict verifier; authentic submissions are accepted (non-vacuity)" % (
-                    len(OPS()), "all" if tier == "thorough" else "every 5th of the"),
+                    len(OPS()), "all" if tier == "thorough" else "every 5th of the", len(resigned_variants())),
         "operators": sorted(OPS()),
         "backends": ["sql", "kv"],
     }
